@@ -174,8 +174,15 @@ class Ctx(object):
 
     def _violation(self, label, call, info):
         if callable(info):
-            info = info()
-        v = dict(label=label, witness=call, info=sym.deep_realize(info),
+            try:
+                info = info()
+            except Exception as e:          # rendering must never mask the violation itself
+                info = 'info not renderable: %s' % type(e).__name__
+        try:
+            info = sym.deep_realize(info)
+        except Exception as e:
+            info = 'info not realizable: %s' % type(e).__name__
+        v = dict(label=label, witness=call, info=info,
                  decisions=sym.decisions(), case=self.case_text)
         self.violations.append(v)
 
@@ -195,6 +202,15 @@ def _worker_init(harness_mod, root_paths):
             sys.path.insert(0, p)
     sym.MODE = 'symbolic'
     import crosshair.core_and_libs  # noqa: registers library patches
+    # Two of CrossHair's library patches change what sigtools observes and are removed so that the
+    # traced code is the real code: functools.partial(...) would return a partial of a do-nothing
+    # wrapper (sigtools inspects .func and isinstance(obj, partial)); weakref.ref.__call__ would run
+    # gc.collect() on every dereference (sigtools' descriptor cache is a WeakKeyDictionary).
+    import functools
+    import weakref
+    from crosshair.core import _PATCH_REGISTRATIONS
+    _PATCH_REGISTRATIONS.pop(functools.partial, None)
+    _PATCH_REGISTRATIONS.pop(weakref.ref.__call__, None)
     _W['solver'] = callshape.Solver()
     _W['mod'] = importlib.import_module(harness_mod)
     from . import known
@@ -209,6 +225,7 @@ def _explore_cube(task):
                                 NotDeterministic, condition_parser)
     from crosshair.options import DEFAULT_OPTIONS
     from crosshair.statespace import RootNode
+    from crosshair.util import CrossHairInternal
     import z3 as _z3
     from . import known as known_mod
 
@@ -270,6 +287,14 @@ def _explore_cube(task):
                 except UnexploredPath:
                     status = VerificationStatus.UNKNOWN
                     out['unknown_paths'] += 1
+                except CrossHairInternal as e:
+                    # the engine could not model something on this path (e.g. C code formatting a
+                    # symbolic value): inconclusive, never green
+                    status = VerificationStatus.UNKNOWN
+                    out['unknown_paths'] += 1
+                    if len(out['harness_errors']) < 5:
+                        out['harness_errors'].append(dict(case=ctx.case_text, error='CrossHairInternal',
+                                                          tb=traceback.format_exc()[-1500:]))
             finally:
                 pass
             _analysis, exhausted = space.bubble_status(CallAnalysis(status))
@@ -278,7 +303,7 @@ def _explore_cube(task):
             out['owned'] += 1
             out['unknown_queries'] += ctx.unknown_queries
             out['counters'].update(ctx.counters)
-            text = ctx.case_text if ctx.case_text is not None else repr(sym.st.trace)
+            text = ctx.case_text if ctx.case_text is not None else 'path#%d' % out['paths']
             d = _digest(text)
             out['digests'].add(d)
             if ctx.nontrivial:
